@@ -267,7 +267,14 @@ func genURL() *rapid.Generator[string] {
 		sb.WriteString(rapid.SampledFrom([]string{"", "", "/", "/..", "/../..", "/./"}).Draw(t, "tail"))
 		return sb.String()
 	})
-	return rapid.OneOf(structured, structured, dots, arbitrary, structured, dots, arbitrary, long, climbThenLong, rapid.StringOfN(rapid.RuneFrom([]rune{'/', '.', 'a', '\\', '%', ';', ' '}), 0, 30, -1))
+	// request targets in absolute form and other things that look like a URL with a scheme: to this function they are
+	// names like any other (a colon, two slashes, a host-like segment)
+	schemeLike := rapid.Custom(func(t *rapid.T) string {
+		head := rapid.SampledFrom([]string{"http://host", "https://example.com:8443", "a://a", "s3://bucket", "x://h", "file://", "HTTP://H", "//host", "a:", "http:", "http:/", "://h", "mailto:a@b", "/http://h", "ftp://u:p@h", "urn:x:y", "%68ttp://h", "http://[::1]"}).Draw(t, "head")
+		tail := rapid.SampledFrom([]string{"", "/", "/index.html", "/a/a", "/a%2fb", "/../x", "/..", "/./a", "//x", "/a/../../b", "?q=1", "#frag", "/%2e%2e/x"}).Draw(t, "tail")
+		return head + tail
+	})
+	return rapid.OneOf(structured, structured, dots, arbitrary, structured, dots, arbitrary, long, climbThenLong, schemeLike, rapid.StringOfN(rapid.RuneFrom([]rune{'/', '.', 'a', '\\', '%', ';', ' '}), 0, 30, -1))
 }
 
 func genBase() *rapid.Generator[string] {
